@@ -236,7 +236,7 @@ def run_case(case):
                 cls = type(zoo.unwrap(orig))
                 restored = cls.load(path)
             else:
-                restored = c01._build(dict(case, history=[]))
+                restored = c01._build(dict(case, history=[], alt_lr=bool(case["seed"] % 2)))
                 restored.load_checkpoint(path)
         except CaseTimeout:
             raise
